@@ -437,6 +437,14 @@ def case_mibcopy(idx, rng, tier, res):
                 with open(os.path.join(srcdirs[si], fname), 'w') as f:
                     f.write(text)
                 copies.setdefault(m, []).append((si, fname, revkey(revs[0]) if revs else 0, text))
+        # the dependency store given as --mib-source may itself hold a file named after a module that
+        # is being copied (say, left there by an earlier run): it is neither a source nor the destination
+        for m in modnames:
+            if rng.random() < 0.35:
+                revs = sorted(rng.sample(years, rng.randint(1, 2)), key=revkey, reverse=True)
+                with open(os.path.join(fix, m), 'w') as f:
+                    f.write(mib_with_revision(m, revs, 'store'))
+                res.count('module_also_in_the_dependency_store')
         expect = {}
         for m, cs in copies.items():
             best = max(c[2] for c in cs)
